@@ -152,6 +152,9 @@ def run_convert(ctx, desc):
         return
     ds = canon_idx(flw.idxs_ds, n)
     pits = sorted(canon_idx(flw.idxs_pit, n))
+    from common import aged
+    # the exported object may have answered other queries before (loop-safe ones: sources may contain loops)
+    flw = aged(flw, p=0.45, loopfree=False)
     obs = export_all(ctx, flw, shape)
     reqs = requests_for(ds, shape)
     cargs = {"nrow": shape[0], "ncol": shape[1], "ft": FT_CODE[src]}
